@@ -195,7 +195,7 @@ func And(xs ...*Term) *Term {
 			}
 		}
 		// or(zs): absorbed if some z is a conjunct; unit resolution if not(z) is a conjunct
-		if x.op == OpOr {
+		if x.op == OpOr && len(out) <= 48 && len(x.args) <= 12 {
 			absorbed := false
 			var keep []*Term
 			for _, z := range x.args {
@@ -279,6 +279,50 @@ func Or(xs ...*Term) *Term {
 	}
 	if len(out) == 1 {
 		return out[0]
+	}
+	// factor common conjuncts: or(and(A,X), and(A,Y)) = and(A, or(X,Y))
+	if orFactor && len(out) <= 8 {
+		conj := func(t *Term) []*Term {
+			if t.op == OpAnd {
+				return t.args
+			}
+			return []*Term{t}
+		}
+		common := map[int]*Term{}
+		for _, y := range conj(out[0]) {
+			common[y.id] = y
+		}
+		for _, x := range out[1:] {
+			if len(common) == 0 {
+				break
+			}
+			here := map[int]bool{}
+			for _, y := range conj(x) {
+				here[y.id] = true
+			}
+			for id := range common {
+				if !here[id] {
+					delete(common, id)
+				}
+			}
+		}
+		if len(common) > 0 {
+			var cs []*Term
+			for _, y := range common {
+				cs = append(cs, y)
+			}
+			var rest []*Term
+			for _, x := range out {
+				var keep []*Term
+				for _, y := range conj(x) {
+					if _, ok := common[y.id]; !ok {
+						keep = append(keep, y)
+					}
+				}
+				rest = append(rest, And(keep...))
+			}
+			return And(append(cs, Or(rest...))...)
+		}
 	}
 	sort.Slice(out, func(i, j int) bool { return out[i].id < out[j].id })
 	return TS.mk(&Term{op: OpOr, args: out})
@@ -898,3 +942,5 @@ func (t *Term) str(sb *strings.Builder, d int) {
 		sb.WriteString(")")
 	}
 }
+
+var orFactor = false
